@@ -110,6 +110,10 @@ func frameChecks(p *load.Prog, a *effects.Analysis, pkg *ssa.Package, r *report.
 				var i int
 				fmt.Sscanf(k, "P%d", &i)
 				w := sum.Wr[k]
+				if isAppender(f, sum, k) {
+					r.OK(o.prop+".argwrite", fname+" param "+paramName(f, i), "output buffer: the only writes are appends behind its length, and the extended slice is what the call returns (the append contract: the caller hands the buffer over to be extended)")
+					continue
+				}
 				if why, ok := inOutByDesign[f.Name()]; ok && !hasRecv(f) {
 					r.OK(o.prop+".argwrite", fname+" param "+paramName(f, i), "named exception: "+why)
 					continue
@@ -167,6 +171,9 @@ func frameChecks(p *load.Prog, a *effects.Analysis, pkg *ssa.Package, r *report.
 			if isSlice && o.freshBytes {
 				ok := true
 				for _, k := range ks {
+					if k != "Fresh" && isAppender(f, sum, k) {
+						continue // the caller's own output buffer, extended (see argwrite)
+					}
 					if k != "Fresh" {
 						ok = false
 						what := k
@@ -216,4 +223,35 @@ func frameChecks(p *load.Prog, a *effects.Analysis, pkg *ssa.Package, r *report.
 func isErr(t types.Type) bool {
 	n, ok := t.(*types.Named)
 	return ok && n.Obj().Pkg() == nil && n.Obj().Name() == "error"
+}
+
+
+// isAppender: parameter key k of f is a byte-slice output buffer in the sense of the append contract - f is named
+// Append…, every write f makes to the parameter is an append behind its length, and a slice result of f is (an
+// extension of) it.
+func isAppender(f *ssa.Function, sum *effects.Summary, k string) bool {
+	if !strings.HasPrefix(k, "P") || sum.OtherWr[k] || sum.Wr[k] == nil {
+		return false
+	}
+	// Go's convention for this contract is the name: strconv.AppendInt, binary.AppendUvarint,
+	// encoding.BinaryAppender.AppendBinary, encoding.TextAppender.AppendText. A function that extends and returns a
+	// caller's slice under any other name (the pinned vetDSTXMD pattern) is not exempt.
+	if !strings.HasPrefix(f.Name(), "Append") {
+		return false
+	}
+	var i int
+	fmt.Sscanf(k, "P%d", &i)
+	if i >= len(f.Params) {
+		return false
+	}
+	if _, isSlice := f.Params[i].Type().Underlying().(*types.Slice); !isSlice {
+		return false
+	}
+	res := f.Signature.Results()
+	for j := 0; j < res.Len() && j < len(sum.Ret); j++ {
+		if _, isSlice := res.At(j).Type().Underlying().(*types.Slice); isSlice && sum.Ret[j][k] {
+			return true
+		}
+	}
+	return false
 }
